@@ -42,8 +42,8 @@ func runC04(r *harness.Run) {
 		{"grow3-from128", lua.Options{RegistrySize: 128, RegistryMaxSize: 1 << 20, RegistryGrowStep: 3}},
 	} {
 		pg := &progRunner{r: r, prop: "C04", opts: cfg.opts, sigPrefix: cfg.name + "/"}
-		pg.runGens(map[string]Gen{"F-misc": genMetaMisc(false), "F-callmeta": genMetaCall(false), "F-index": genMetaIndex(false), "F-chain": genMetaChain(false), "F-callalign": genCallAlign()},
-			[]string{"F-misc", "F-callmeta", "F-index", "F-chain", "F-callalign"})
+		pg.runGens(map[string]Gen{"F-misc": genMetaMisc(false), "F-callmeta": genMetaCall(false), "F-index": genMetaIndex(false), "F-chain": genMetaChain(false), "F-callalign": genCallAlign(), "F-opgrow": genOpGrow(false)},
+			[]string{"F-misc", "F-callmeta", "F-index", "F-chain", "F-callalign", "F-opgrow"})
 	}
 }
 
